@@ -6,8 +6,8 @@
    is the parser after the schedule, [out] the key presses emitted so far
    (key, data), [pending] = (open paste: start mark ++ paste buffer) ++ prefix. *)
 From Coq Require Import ZArith List Bool.
-From PTK Require Import Lib.Sx Lib.Py Gen.C03_AnsiSequences Model.C03_Vt100Parser
-  Proofs.C03_Table Proofs.C03_Process Proofs.C03_Feed Proofs.C03_Lossless Proofs.C03_Main.
+From PTK Require Import Lib.Sx Lib.Py Gen.C03_AnsiSequences Model.C03_Vt100Parser Model.C03_Vt100Input
+  Proofs.C03_Table Proofs.C03_Process Proofs.C03_Feed Proofs.C03_Lossless Proofs.C03_Main Proofs.C03_Input Proofs.C03_Shift.
 Import ListNotations.
 Open Scope Z_scope.
 
@@ -93,6 +93,29 @@ Theorem C03_longest_first : forall st i ks,
 Proof. exact longest_first. Qed.
 Print Assumptions C03_longest_first.
 
+(* Why the shift loop has no "break" and does not need one on this table
+   (finite facts re-proved from the regenerated table + disjointness of the
+   prefix regexes and the full regexes): no slice of length >= 2 of a string
+   that is still a prefix of a longer match has a match ... *)
+Theorem C03_pending_slices_have_no_match : forall q j,
+  is_prefix_longer q = true -> (2 <= j <= length q)%nat -> get_match (firstn j q) = None.
+Proof. exact lp_slices_no_match. Qed.
+Print Assumptions C03_pending_slices_have_no_match.
+
+(* ... hence in the pass that follows a new character (pending q, still able to
+   grow, plus the character; no exact match) the loop as written and the loop
+   with a break after the first match ([match_loop_brk]) are the same function:
+   the only slice that can match is the first character.
+   PARTIAL: the retry passes (remainders after a shift, which are suffixes and
+   not of the shape q ++ [c]) are not covered; there a second match in the same
+   pass does occur (feed "\x1b[M\x1b\t\n": the retry on "\x1b\t\n" matches
+   "\x1b\t" at i = 2 and then "\n" at i = 1 in the same pass). *)
+Theorem C03_shift_break_equiv_first_pass_partial : forall st q c,
+  prefix st = q ++ [c] -> (q = [] \/ is_prefix_longer q = true) -> get_match (q ++ [c]) = None ->
+  match_loop (length (prefix st)) st false = match_loop_brk (length (prefix st)) st.
+Proof. exact first_pass_break_equiv. Qed.
+Print Assumptions C03_shift_break_equiv_first_pass_partial.
+
 (* After a flush nothing remains buffered except an unterminated bracketed
    paste: in EVERY state the coroutine's prefix is empty after flush() (the
    flush flag is kept across the retries since fix e3d939f) ... *)
@@ -125,6 +148,54 @@ Theorem C03_flush_pinned_refuted :
     in_paste (flush_pinned st) = false /\ prefix (flush_pinned st) <> [].
 Proof. exact flush_pinned_not_empty. Qed.
 Print Assumptions C03_flush_pinned_refuted.
+
+(* ---------------------------------------------------------------------- *)
+(* Byte level: PosixStdinReader + Vt100Input (Model/C03_Vt100Input.v).
+   [dec bs] is one call utf_8_decode(bs, "surrogateescape", final=False):
+   decoded text, undecoded tail, out-of-fuel flag. *)
+
+Theorem C03_utf8_fuel_suffices : forall bs, doof (dec bs) = false.
+Proof. exact dec_oof. Qed.
+Print Assumptions C03_utf8_fuel_suffices.
+
+(* Incremental decoding is chunk independent at BYTE level: decoding a ++ b at
+   once gives the text of a followed by the text of (undecoded tail of a) ++ b,
+   and the same undecoded tail - wherever the cut falls inside a multi-byte or
+   invalid sequence. *)
+Theorem C03_utf8_chunk_independent : forall a b,
+  dec (a ++ b) = dcombine (dec a) (dec (dpend (dec a) ++ b)).
+Proof. exact dec_app. Qed.
+Print Assumptions C03_utf8_chunk_independent.
+
+Theorem C03_utf8_tail_is_stable : forall bs,
+  dec (dpend (dec bs)) = mkd [] (dpend (dec bs)) false.
+Proof. exact dec_pend. Qed.
+Print Assumptions C03_utf8_tail_is_stable.
+
+(* Vt100Input.read_keys/flush_keys: for every schedule of reads (raw bytes) and
+   flushes, the lists handed back, concatenated, are exactly the key presses of
+   the parser run on the incrementally decoded text - each once, in order -
+   the hand-over buffer is empty between calls, and no fuel runs out. *)
+Theorem C03_input_conservation : forall ops,
+  let r := run_vops ops vinit in
+  concat (snd r) = out (run_ops (text_ops [] ops) init) /\
+  vbuf (fst r) = [] /\
+  vpar (fst r) = run_ops (text_ops [] ops) init /\
+  voof (fst r) = false.
+Proof. exact input_conservation. Qed.
+Print Assumptions C03_input_conservation.
+
+(* Chunk independence of the whole input path at byte level: inside any
+   schedule, cutting a stretch of the byte stream into reads in any way (also
+   inside a UTF-8 sequence, an escape sequence or a paste marker) gives the
+   same key presses, the same parser state and the same undecoded bytes as one
+   read of the whole stretch. *)
+Theorem C03_bytes_chunk_independent : forall before chunks after,
+  let r1 := run_vops (before ++ map Read chunks ++ after) vinit in
+  let r2 := run_vops (before ++ [Read (concat chunks)] ++ after) vinit in
+  vcore (fst r1) = vcore (fst r2) /\ concat (snd r1) = concat (snd r2).
+Proof. exact bytes_chunk_independent. Qed.
+Print Assumptions C03_bytes_chunk_independent.
 
 (* Non-vacuity: the table has multi-key entries without BracketedPaste. *)
 Example C03_table_has_tuples :
